@@ -6,6 +6,7 @@ import (
 	"time"
 
 	ipfslog "berty.tech/go-ipfs-log"
+	"berty.tech/go-ipfs-log/entry"
 	"berty.tech/go-ipfs-log/iface"
 	"github.com/ipfs/go-cid"
 
@@ -94,6 +95,8 @@ func c10Case(run *evid.Run, i int, j *Journal) {
 				}
 				var first map[string]bool
 				var firstDesc string
+				dupSources := loader == "entries" && rng.Intn(3) == 0
+				sliceRewritten := false
 				for rep := 0; rep < 2; rep++ {
 					conc := []int{1, 2, 8, 32}[rng.Intn(4)]
 					pol := policies[rng.Intn(len(policies))]
@@ -113,11 +116,22 @@ func c10Case(run *evid.Run, i int, j *Journal) {
 						case "json":
 							loaded, err = x.W.LoadJSON(&iface.JSONLog{ID: x.W.LogID, Heads: cidsOf(start)}, 0, lo)
 						case "entries":
-							var se []iface.IPFSLogEntry
+							// the caller's slice: sometimes with spare capacity, sometimes naming an entry twice
+							se := make([]iface.IPFSLogEntry, 0, 64)
 							for _, s := range start {
 								se = append(se, ents[s])
 							}
-							loaded, err = x.W.LoadEntries(se, 0, lo)
+							if dupSources {
+								se = append(se, se[len(se)-1], se[0])
+							}
+							orig := append([]iface.IPFSLogEntry(nil), se...)
+							loaded, err = ipfslog.NewFromEntry(x.W.Ctx, x.W.Store.API(), x.W.Idents[0], se, x.W.LogOpts(x.W.LogID),
+								&entry.FetchOptions{Length: lo.Length, Concurrency: lo.Concurrency})
+							for q := range orig {
+								if se[q] != orig[q] {
+									sliceRewritten = true
+								}
+							}
 						case "hash":
 							c, _ := cid.Decode(start[0])
 							loaded, err = x.W.LoadHash(c, 0, lo)
@@ -165,14 +179,24 @@ func c10Case(run *evid.Run, i int, j *Journal) {
 						run.Violate("C10/panic", d, wit(), "loader panicked: %v (%s)", pan, desc)
 						continue
 					}
+					if sliceRewritten {
+						run.Violate("C10/caller-slice-rewritten", d, wit(), "NewFromEntry rewrote the caller's slice of supplied entries (%s)", desc)
+					}
+					if dupSources {
+						run.Count("loads_with_repeated_source_entries", 1)
+					}
 					if err != nil || loaded == nil {
 						run.Violate("C10/load-error", d, wit(), "loader failed: %v (%s)", err, desc)
 						continue
 					}
 					got := hx.Observe(loaded)
 					want := n
-					if k > want {
-						want = k
+					kk := k
+					if dupSources {
+						kk = k + 2 // the caller supplied k+2 starting entries (two of them repeats): the limit is raised to that number
+					}
+					if kk > want {
+						want = kk
 					}
 					if size < want {
 						want = size
